@@ -114,7 +114,7 @@ func lowerKey(s string) string { return "l:" + strings.ToLower(strings.ReplaceAl
 
 func genScalarField(r *vh.Rand, name string) uField {
 	t := vh.Pick(r, scalars)
-	u := uField{Name: name, J5Type: t.j5, PType: t.ptype, J5Kind: t.kind, Required: r.Chance(25), Bang: r.Bool()}
+	u := uField{Name: name, J5Type: t.j5, PType: t.ptype, J5Kind: t.kind, Required: r.Chance(25), Bang: r.Bool(), SayFalse: r.Chance(20)}
 	if !u.Required && r.Chance(15) {
 		u.Optional = true
 	}
@@ -122,7 +122,7 @@ func genScalarField(r *vh.Rand, name string) uField {
 }
 
 func genKeyTyped(r *vh.Rand, name string) uField {
-	u := uField{Name: name, Key: true, KeyFmt: vh.Pick(r, []string{"", "id62", "uuid", "id62"}), PType: 9, J5Kind: "key", Required: r.Chance(30), Bang: r.Bool()}
+	u := uField{Name: name, Key: true, KeyFmt: vh.Pick(r, []string{"", "id62", "uuid", "id62"}), PType: 9, J5Kind: "key", Required: r.Chance(30), Bang: r.Bool(), SayFalse: r.Chance(30)}
 	if !u.Required && r.Chance(10) {
 		u.Optional = true
 	}
@@ -253,6 +253,10 @@ func genEntityOpt(r *vh.Rand, second bool, forcedName string) *entityDecl {
 		if r.Chance(40) {
 			c.Base = ptr(vh.Pick(r, []string{"sp", "admin", "x/y", "ops_2"}))
 		}
+		if r.Chance(35) {
+			c.Audience = vh.Pick(r, [][]string{{"admin"}, {"ops", "admin"}, {"public"}})
+			c.OptionsForm = r.Intn(2)
+		}
 		for mk := r.Range(0, 2); mk > 0; mk-- {
 			m := eMethod{Verb: vh.Pick(r, []int{1, 2, 2, 3, 4, 5})}
 			m.Name = methodNames.fresh(func() string {
@@ -299,9 +303,13 @@ func genEntityOpt(r *vh.Rand, second bool, forcedName string) *entityDecl {
 		sn := nameSet{}
 		for k := r.Range(1, 2); k > 0; k-- {
 			name := sn.fresh(func() string { return vh.Pick(r, []string{"Address", "Money", "Tag", "Meta", "Dimensions", "Contact"}) + d.schemaSuffix() }, rawKey)
-			sc := eSchema{Name: name, Fields: genFields(r, 0, 3)}
+			sc := eSchema{Name: name, Fields: genFields(r, 0, 3, "keys")}
 			if len(d.Schemas) > 0 && r.Chance(40) {
 				sc.Fields = append(sc.Fields, uField{Name: "prev", Obj: d.Schemas[0].Name, PType: 11, J5Kind: "object"})
+			}
+			if r.Chance(40) {
+				// an object that embeds the entity's keys must not be taken for its KEYS part
+				sc.Fields = append(sc.Fields, uField{Name: "keys", Obj: strcase.ToCamel(d.Name) + "Keys", PType: 11, J5Kind: "object", Required: r.Bool()})
 			}
 			d.Schemas = append(d.Schemas, sc)
 		}
@@ -332,7 +340,7 @@ func genEntityOpt(r *vh.Rand, second bool, forcedName string) *entityDecl {
 		}
 	}
 	if r.Chance(50) {
-		q := &eQuery{EventsInGet: r.Bool()}
+		q := &eQuery{EventsInGet: r.Bool(), SayFalse: r.Bool()}
 		for _, s := range d.Status {
 			if r.Chance(40) {
 				q.DefaultStatus = append(q.DefaultStatus, s)
@@ -457,7 +465,7 @@ const c17Shard = 25
 func runC17(cfg *vh.Config) error {
 	log.SetOutput(io.Discard) // the compiler logs every walker error
 	res := vh.NewResult("C17", cfg.Seed)
-	res.Rule = "entity declarations: name casings (fixed list incl. trailing capitals/acronyms/digits/underscores + generated identifiers), 1-4 keys (key-typed id62/uuid/plain with primary/tenant, or scalar) x shard flag x required, 0-4 data fields over 9 scalar types + keys, 1-4 statuses (+ the UNSPECIFIED-first and prefixed-name edge cases), foreign keys, optional fields, methods without response, objects declared in the entity block and object references to them / to the generated Keys and Data, 0-3 events with 0-3 fields, 0-2 command services (default/named, base path, 0-2 methods with path parameters), 0-2 summaries (default/named), optional query settings; 20% of the files declare two entities; malformed: unknown default status, duplicate summary, optional+required field, path parameter that is not a request field, dangling object reference; plus the strcase stream; non-trivial = distinct declaration text"
+	res.Rule = "entity declarations: name casings (fixed list incl. trailing capitals/acronyms/digits/underscores + generated identifiers), 1-4 keys (key-typed id62/uuid/plain with primary/tenant, or scalar) x shard flag x required, 0-4 data fields over 9 scalar types + keys, 1-4 statuses (+ the UNSPECIFIED-first and prefixed-name edge cases), foreign keys, optional fields, methods without response, objects declared in the entity block and object references to them / to the generated Keys and Data, 0-3 events with 0-3 fields, 0-2 command services (default/named, base path, own options block with audience/default auth, 0-2 methods with path parameters), boolean attributes also spelled out as false (primary/shardKey/required/optional/eventsInGet = false), 0-2 summaries (default/named), optional query settings; 20% of the files declare two entities; malformed: unknown default status, duplicate summary, optional+required field, path parameter that is not a request field, dangling object reference; plus the strcase stream; non-trivial = distinct declaration text"
 	cf := &vh.CasesFile{
 		Header: "From Coq Require Import String List NArith.\nFrom J5V.lib Require Import Outcome.\nFrom J5V.model Require Import Entity EntityCorr.",
 		Type:   "c17case",
